@@ -813,10 +813,14 @@ func replayEdge(c *core.Ctx, b *Built, p *valPayload, n int) ([]finding, error) 
 	f1, f2 := (n+int(c.Seed))%4, ((n+int(c.Seed))/4)%4
 	seenPair := map[string]bool{}
 	pairs := [][2]int{{0, 0}, {2, 2}, {3, 3}, {f1, f2}}
-	if c.Thorough() && b.Corpus.Name != "probe" && b.Corpus.Name != "cases" {
-		// the additional corpora of the thorough tier (K = 3): one pure pair rotating with the edge, and the mixed one
+	if c.Thorough() && b.Corpus.Name != "probe" {
+		// thorough tier (K = 3, six corpora; the replay is sequential): the repository's cases.tl gets one pure
+		// pair rotating with the edge plus the mixed one, the additional corpora the mixed pair only
 		pure := [][2]int{{0, 0}, {2, 2}, {3, 3}}[n%3]
 		pairs = [][2]int{pure, {f1, f2}}
+		if b.Corpus.Name != "cases" {
+			pairs = [][2]int{{f1, f2}}
+		}
 	}
 	for _, fp := range pairs {
 		s1, _ := mk(p.From, fp[0])
